@@ -136,7 +136,7 @@ def run_case(case):
     if sizes_kind == 0:
         n1 = n2 = int(rng.integers(1, 300))
     elif sizes_kind == 1:
-        n1, n2 = int(rng.integers(200, 601)), int(rng.integers(1, 6))
+        n1, n2 = int(rng.choice([256, 512, 513, 600, int(rng.integers(200, 601))])), int(rng.integers(1, 6))
     elif sizes_kind == 2:
         n1, n2 = int(rng.integers(1, 6)), int(rng.integers(100, 601))
     else:
@@ -146,7 +146,7 @@ def run_case(case):
     if fault:
         nruns = 2 if fault['after_good_run'] else 1
     nruns = max(1, min(nruns, n1, n2))
-    bs = int(rng.choice([1, 2, 3, 7, 10, 16, 50, 100, max(n1, n2), max(n1, n2) + 3]))
+    bs = int(rng.choice([1, 2, 3, 7, 10, 16, 50, 64, 100, 128, 256, 512, max(n1, n2), max(n1, n2) + 3]))
     if bs == 1 and n1 + n2 > 400:
         bs = 5
     tdt = ['int16', 'int32', 'uint16', 'float32', 'float64'][int(rng.integers(5))]
